@@ -288,7 +288,11 @@ def replay(chk, path):
                 fs.append("%s:%s:%s:%s:%s" % (fm.group(1), ",".join(fm.group(2).split()), fm.group(3), fm.group(4), ";".join(pes)))
             ded.append("%s\t%s" % (m.group(1) if m.group(1) != "real" else "wf", " ".join(fs)))
     if not (ren or jobs or ded):
-        chk.log("replay: the recorded case is a generated history; running the whole check with the recorded seed")
+        chk.log("replay: the recorded case is a generated history; running the whole check with the recorded seed and tier")
+        if isinstance(r.get("seed"), int):
+            chk.seed = r["seed"]
+        if r.get("tier") in ("quick", "thorough"):
+            chk.tier = r["tier"]
         run(chk)
         return
     if ren:
